@@ -73,6 +73,21 @@ NEXT Next
 """
 
 
+# programs that SIGKILL one of their own child processes while it is being handled (tracer delayed
+# at its verifPoint so that the window is hit); same property machine
+RACE_GEN = """CONSTANTS
+  MainAlpha = {"F","J","T","W"}
+  ChildAlpha = {"T"}
+  MaxMain = 3
+  MaxChild = 1
+  MaxSpawn = 1
+  MaxT = 2
+  MaxTotal = 4
+INIT Init
+NEXT Next
+"""
+
+
 def shape(c):
     """coarse class of a case for stratified sampling / violation keys: op kinds per task + decisions"""
     ks = "/".join("".join(o["k"] for o in t) for t in c["script"])
@@ -150,6 +165,19 @@ def run(ctx):
     if ctx.replay and ctx.replay.get("case"):
         rc = ctx.replay["case"]
         cases = [{"script": rc.get("script_ops") or [], "dec": rc.get("dec") or {}, "raw": "" if rc.get("script_ops") else rc.get("raw", "")}]
+    if not (ctx.replay and ctx.replay.get("case")):
+        rg = ctx.tlc("Tracer_Gen", cfg=RACE_GEN, timeout=600, count=False)
+        ctx.tlc_ok("Tracer_Gen (kill races)", rg)
+        rc = [c for c in ctx.read_ndjson(os.path.join(rg.dir, "cases.ndjson"))
+              if isinstance(c["dec"], dict) and any(o["k"] == "J" for o in c["script"][0]) and len(c["script"]) == 2 and c["script"][1]]
+        rc.sort(key=lambda c: json.dumps(c, sort_keys=True))
+        if not t:
+            ctx.rng.shuffle(rc)
+            pin = [c for c in rc if kinds_of(c) == "FJT/T" and set(c["dec"].values()) == {"allow"}]
+            rc = pin + [c for c in rc if c not in pin][:12]
+        for c in rc:
+            c["delay"] = {"tracer.seccomp": 15}
+        cases += rc
     for i, c in enumerate(cases):
         c["id"] = i + 1
         c["filter"] = "kill"
